@@ -11,7 +11,7 @@ WEIGHTS = {"eval": 6, "set_value": 4, "clear": 3, "set_ref": 1.0, "del_ref": 0.5
 def swarm(rng):
     cfg = c02.swarm(rng)
     cfg.update({"n_spaces": rng.choice([2, 3]), "n_cells": rng.choice([3, 4, 5]), "n_refs": rng.choice([1, 2]),
-                "n_steps": rng.choice([15, 25, 40]), "p_sformula": 0.0, "p_objref": 0.0, "p_uncached": rng.choice([0.0, 0.2]),
+                "n_steps": rng.choice([15, 25, 40]), "p_sformula": 0.0, "p_objref": 0.0, "p_uncached": rng.choice([0.0, 0.2, 0.5, 0.7]),
                 "recalc": rng.random() < 0.5, "p_selfrec": 0.5, "p_scalar": 0.2, "items": False,
                 "p_recalc_fault": rng.choice([0.0, 0.3, 0.6])})
     return cfg
